@@ -2457,3 +2457,8 @@ m("C09", "refactor-macro-lookup-key-local", "zpt/template.py",
 
         try:
             function = getattr(self.template, "_render_%s" % key)''', expect="silent")
+m("C15", "constants-named-by-address", "zpt/template.py",
+  '''    if value is None or isinstance(value, (str, bytes, int, float)):
+        # a plain constant is its own name, in every process
+        return repr(value)
+''', '')
